@@ -177,6 +177,210 @@ def gen(t, sform, shape, forms, lens, domain, tier):
     return h
 
 
+# ------------------------------------------------------------------------------------ L1: mask reads on the Access* structs
+def gen_l1_mask(t, fam, sform, shape, m0, m1, tier):
+    """The mask-read structs built the way their dispatch arms build them (output allocated as the arm allocates it), with CONCRETE
+    masks - one harness per mask - and symbolic source elements / scalar indices.  Why concrete: the kernels resize their output to
+    the number of true bits; with a symbolic mask that is an allocation of symbolic size, which gets no verdict.
+      1DVDb   x[mask]            Access1DVDb{RD,VD,MD}     m0 over all elements
+      2DVDbA  x[mask, :]         Access2DVDbAMD            m0 over rows
+      2DVDbS  x[mask, j]         Access2DVDbSMD            m0 over rows, j symbolic
+      2DSVDb  x[i, mask]         Access2DSVDbMD            m1 over columns, i symbolic
+      2DRRVBB x[mask, mask]      Access2DRRVBB             m0 rows, m1 columns
+      2DRRVUB x[[i..], mask]     Access2DRRVUB             2 symbolic row indices, m1 columns
+      2DRRVBU x[mask, [j..]]     Access2DRRVBU             m0 rows, 2 symbolic column indices"""
+    R, C = shape
+    N = R * C
+    mat = SHAPE_IDENT[sform]
+    b = [sym_array(t, "src", N), "let sc = Ref::new(%s);" % mk_form(sform, t, "src", shape)]
+    d = default_of(t)
+    pre = []
+
+    def maskdecl(nm, bits):
+        return ["let %s: [bool; %d] = [%s];" % (nm, len(bits), ", ".join("true" if x else "false" for x in bits)),
+                "let %sc = Ref::new(DVector::<bool>::from_vec(%s.to_vec()));" % (nm, nm)]
+    sel0 = None if m0 is None else [k for k, x in enumerate(m0) if x]
+    sel1 = None if m1 is None else [k for k, x in enumerate(m1) if x]
+    want = []          # (rust expr of the expected element) in column-major order of the result
+    if fam == "1DVDb":
+        b += maskdecl("m0", m0)
+        b.append("let out = Ref::new(DVector::<%s>::from_element(%d, %s));" % (t, len(m0), d))
+        b.append("let f = Access1DVDb%s::<%s> { source: sc.clone(), ixes: m0c.clone(), out: out.clone() };" % (sform, t))
+        rr, rc = len(sel0), 1
+        want = ["src[%d]" % k for k in sel0]
+        shape_ok = "(rows == %d && cols == 1) || (rows == 1 && cols == %d)" % (rr, rr)
+    elif fam == "2DVDbA":
+        b += maskdecl("m0", m0)
+        b.append("let out = Ref::new(DMatrix::<%s>::from_element(%d, %d, %s));" % (t, len(m0), C, d))
+        b.append("let f = Access2DVDbAMD::<%s> { source: sc.clone(), ixes: m0c.clone(), out: out.clone() };" % t)
+        rr, rc = len(sel0), C
+        want = ["src[%d]" % (r + c * R) for c in range(C) for r in sel0]
+        shape_ok = "rows == %d && cols == %d" % (rr, rc)
+    elif fam == "2DVDbS":
+        b += maskdecl("m0", m0)
+        b += ["let j: usize = kani::any();", "let jc = Ref::new(j);"]
+        pre.append("j >= 1 && j <= %d" % C)
+        b.append("let out = Ref::new(DVector::<%s>::from_element(%d, %s));" % (t, len(m0), d))
+        b.append("let f = Access2DVDbSMD::<%s> { source: sc.clone(), ix1: m0c.clone(), ix2: jc.clone(), out: out.clone() };" % t)
+        rr, rc = len(sel0), 1
+        want = ["src[%d + (j - 1) * %d]" % (r, R) for r in sel0]
+        shape_ok = "rows == %d && cols == 1" % rr
+    elif fam == "2DSVDb":
+        b += maskdecl("m1", m1)
+        b += ["let i: usize = kani::any();", "let ic = Ref::new(i);"]
+        pre.append("i >= 1 && i <= %d" % R)
+        b.append("let out = Ref::new(RowDVector::<%s>::from_element(%d, %s));" % (t, len(m1), d))
+        b.append("let f = Access2DSVDbMD::<%s> { source: sc.clone(), ix1: ic.clone(), ix2: m1c.clone(), out: out.clone() };" % t)
+        rr, rc = 1, len(sel1)
+        want = ["src[(i - 1) + %d * %d]" % (c, R) for c in sel1]
+        shape_ok = "rows == 1 && cols == %d" % rc
+    else:
+        K = 2
+        if fam in ("2DRRVBB", "2DRRVBU"):
+            b += maskdecl("m0", m0)
+            rows = [str(r) for r in sel0]
+            ix1, t1 = "m0c.clone()", "bool"
+        else:
+            b += ["let r0: [usize; %d] = kani::any();" % K, "let r0c = Ref::new(DVector::<usize>::from_vec(r0.to_vec()));"]
+            pre += ["r0[%d] >= 1 && r0[%d] <= %d" % (k, k, R) for k in range(K)]
+            rows = ["(r0[%d] - 1)" % k for k in range(K)]
+            ix1, t1 = "r0c.clone()", "usize"
+        if fam in ("2DRRVBB", "2DRRVUB"):
+            b += maskdecl("m1", m1)
+            cols = [str(c) for c in sel1]
+            ix2, t2 = "m1c.clone()", "bool"
+        else:
+            b += ["let c0: [usize; %d] = kani::any();" % K, "let c0c = Ref::new(DVector::<usize>::from_vec(c0.to_vec()));"]
+            pre += ["c0[%d] >= 1 && c0[%d] <= %d" % (k, k, C) for k in range(K)]
+            cols = ["(c0[%d] - 1)" % k for k in range(K)]
+            ix2, t2 = "c0c.clone()", "usize"
+        rr, rc = len(rows), len(cols)
+        # the arm's allocation rule: (cols, rows) = (1,1) -> 1x1 DMatrix, (1,_) -> DVector(rows), (_,1) -> RowDVector(cols), else DMatrix(rows, cols)
+        if rc == 1 and rr == 1:
+            oty, oexpr = "DMatrix", "DMatrix::<%s>::from_element(1, 1, %s)" % (t, d)
+        elif rc == 1:
+            oty, oexpr = "DVector", "DVector::<%s>::from_element(%d, %s)" % (t, rr, d)
+        elif rr == 1:
+            oty, oexpr = "RowDVector", "RowDVector::<%s>::from_element(%d, %s)" % (t, rc, d)
+        else:
+            oty, oexpr = "DMatrix", "DMatrix::<%s>::from_element(%d, %d, %s)" % (t, rr, rc, d)
+        b.append("let out = Ref::new(%s);" % oexpr)
+        b.append("let f = Access%s::<%s, %s<%s>, %s<%s>, DVector<%s>, DVector<%s>> { source: sc.clone(), ixes: (%s, %s), sink: out.clone(), _marker: ::std::marker::PhantomData };"
+                 % (fam, t, oty, t, mat, t, t1, t2, ix1, ix2))
+        want = ["src[%s + %s * %d]" % (r, c, R) for c in cols for r in rows]
+        shape_ok = "rows == %d && cols == %d" % (rr, rc)
+    if pre:
+        b.append("kani::assume(%s);" % " && ".join(pre))       # before solve(): the constructors above only store the values
+    b.append("f.solve();")
+    b.append("let v = f.out();")
+    b.append(extract(t, ""))
+    b.append("assert!(%s, \"VP:wrong-shape\");" % shape_ok)
+    b.append("if rows * cols == %d { assert!(%s, \"VP:wrong-element\"); }" % (len(want), " && ".join(eq_expr(t, "rd(%d)" % k, w) for k, w in enumerate(want))))
+    b.append("{ let s_ = sc.borrow(); assert!(%s, \"VP:source-modified\"); }" % " && ".join(eq_expr(t, "s_[%d]" % q, "src[%d]" % q) for q in range(N)))
+    b.append("f.solve(); let v2 = f.out();")
+    b.append("kani::cover!(true, \"VP:reached\");")
+    b.append("forget(v); forget(v2); forget(f); forget(out); forget(sc);")
+    tag = "%s%s" % (("r" + mask_txt(m0)) if m0 is not None else "", ("c" + mask_txt(m1)) if m1 is not None else "")
+    h = H("c03_l1_%s_%s_%s%dx%d_%s" % (fam.lower(), t.lower(), sform.lower(), R, C, tag), "    " + "\n    ".join(x for x in b if x), WHERE, domain="accept",
+          key="L1/Access%s/%s/%s/%s" % (fam, t, sform, tag),
+          desc="Access%s<%s> on a symbolic %dx%d %s with the concrete mask(s) %s, output allocated as the dispatch arm allocates it: documented result "
+               "shape, every element is the one the 1-based column-major model selects, source unchanged" % (fam, t, R, C, sform, tag),
+          functions=["Access%s::solve/out (src/interpreter/src/stdlib/access/matrix.rs: struct macro + access_* kernel macro)" % fam],
+          bounds="source %dx%d, all element values; mask(s) concrete (one harness per mask); scalar / vector indices: all in-range values" % (R, C),
+          unwind=max(N, len(m0 or []), len(m1 or [])) + 2, tier=tier, group="L1-mask")
+    h.slice = slice_for(t)
+    return h
+
+
+def gen_l1_ix(t, fam, sform, shape, m1, tier):
+    """L1 for the index-vector read structs (symbolic index vectors of length 2, repeats allowed) and the x[:, cols] / x[:, mask] structs"""
+    R, C = shape
+    N = R * C
+    K = 2
+    mat = SHAPE_IDENT[sform]
+    d = default_of(t)
+    b = [sym_array(t, "src", N), "let sc = Ref::new(%s);" % mk_form(sform, t, "src", shape)]
+    pre = []
+
+    def ixdecl(nm, dim):
+        pre.extend("%s[%d] >= 1 && %s[%d] <= %d" % (nm, k, nm, k, dim) for k in range(K))
+        return ["let %s: [usize; %d] = kani::any();" % (nm, K), "let %sc = Ref::new(DVector::<usize>::from_vec(%s.to_vec()));" % (nm, nm)]
+    if fam == "1DVD":
+        b += ixdecl("i0", N)
+        b.append("let out = Ref::new(DVector::<%s>::from_element(%d, %s));" % (t, K, d))
+        b.append("let f = Access1DVD%s::<%s> { source: sc.clone(), ixes: i0c.clone(), out: out.clone() };" % (sform, t))
+        want = ["src[i0[%d] - 1]" % k for k in range(K)]
+        shape_ok = "(rows == %d && cols == 1) || (rows == 1 && cols == %d)" % (K, K)
+    elif fam == "2DVDA":
+        b += ixdecl("i0", R)
+        b.append("let out = Ref::new(DMatrix::<%s>::from_element(%d, %d, %s));" % (t, K, C, d))
+        b.append("let f = Access2DVDAMD::<%s> { source: sc.clone(), ixes: i0c.clone(), out: out.clone() };" % t)
+        want = ["src[(i0[%d] - 1) + %d * %d]" % (k, c, R) for c in range(C) for k in range(K)]
+        shape_ok = "rows == %d && cols == %d" % (K, C)
+    elif fam == "2DVDS":
+        b += ixdecl("i0", R)
+        b += ["let j: usize = kani::any();", "let jc = Ref::new(j);"]
+        pre.append("j >= 1 && j <= %d" % C)
+        b.append("let out = Ref::new(DVector::<%s>::from_element(%d, %s));" % (t, K, d))
+        b.append("let f = Access2DVDSMD::<%s> { source: sc.clone(), ix1: i0c.clone(), ix2: jc.clone(), out: out.clone() };" % t)
+        want = ["src[(i0[%d] - 1) + (j - 1) * %d]" % (k, R) for k in range(K)]
+        shape_ok = "rows == %d && cols == 1" % K
+    elif fam == "2DSVD":
+        b += ixdecl("i1", C)
+        b += ["let i: usize = kani::any();", "let ic = Ref::new(i);"]
+        pre.append("i >= 1 && i <= %d" % R)
+        b.append("let out = Ref::new(RowDVector::<%s>::from_element(%d, %s));" % (t, K, d))
+        b.append("let f = Access2DSVDMD::<%s> { source: sc.clone(), ix1: ic.clone(), ix2: i1c.clone(), out: out.clone() };" % t)
+        want = ["src[(i - 1) + (i1[%d] - 1) * %d]" % (k, R) for k in range(K)]
+        shape_ok = "rows == 1 && cols == %d" % K
+    elif fam == "2DRRVUU":
+        b += ixdecl("i0", R) + ixdecl("i1", C)
+        b.append("let out = Ref::new(DMatrix::<%s>::from_element(%d, %d, %s));" % (t, K, K, d))
+        b.append("let f = Access2DRRVUU::<%s, DMatrix<%s>, %s<%s>, DVector<usize>, DVector<usize>> { source: sc.clone(), ixes: (i0c.clone(), i1c.clone()), sink: out.clone(), _marker: ::std::marker::PhantomData };" % (t, t, mat, t))
+        want = ["src[(i0[%d] - 1) + (i1[%d] - 1) * %d]" % (r, c, R) for c in range(K) for r in range(K)]
+        shape_ok = "rows == %d && cols == %d" % (K, K)
+    elif fam == "2DARV":
+        b += ixdecl("i1", C)
+        b.append("let out = Ref::new(DMatrix::<%s>::from_element(%d, %d, %s));" % (t, R, K, d))
+        b.append("let f = Access2DARV::<%s, DMatrix<%s>, %s<%s>, DVector<usize>> { source: sc.clone(), ixes: i1c.clone(), sink: out.clone(), _marker: ::std::marker::PhantomData };" % (t, t, mat, t))
+        want = ["src[%d + (i1[%d] - 1) * %d]" % (r, c, R) for c in range(K) for r in range(R)]
+        shape_ok = "rows == %d && cols == %d" % (R, K)
+    elif fam == "2DARVB":
+        sel1 = [k for k, x in enumerate(m1) if x]
+        b += ["let m1: [bool; %d] = [%s];" % (len(m1), ", ".join("true" if x else "false" for x in m1)),
+              "let m1c = Ref::new(DVector::<bool>::from_vec(m1.to_vec()));"]
+        if len(sel1) == 1 and R != 1:
+            oty, oexpr = "DVector", "DVector::<%s>::from_element(%d, %s)" % (t, R, d)
+        else:
+            oty, oexpr = "DMatrix", "DMatrix::<%s>::from_element(%d, %d, %s)" % (t, R, len(sel1), d)
+        b.append("let out = Ref::new(%s);" % oexpr)
+        b.append("let f = Access2DARVB::<%s, %s<%s>, %s<%s>, DVector<bool>> { source: sc.clone(), ixes: m1c.clone(), sink: out.clone(), _marker: ::std::marker::PhantomData };" % (t, oty, t, mat, t))
+        want = ["src[%d + %d * %d]" % (r, c, R) for c in sel1 for r in range(R)]
+        shape_ok = "rows == %d && cols == %d" % (R, len(sel1))
+    else:
+        raise ValueError(fam)
+    if pre:
+        b.append("kani::assume(%s);" % " && ".join(pre))
+    b.append("f.solve();")
+    b.append("let v = f.out();")
+    b.append(extract(t, ""))
+    b.append("assert!(%s, \"VP:wrong-shape\");" % shape_ok)
+    b.append("if rows * cols == %d { assert!(%s, \"VP:wrong-element\"); }" % (len(want), " && ".join(eq_expr(t, "rd(%d)" % k, w) for k, w in enumerate(want))))
+    b.append("{ let s_ = sc.borrow(); assert!(%s, \"VP:source-modified\"); }" % " && ".join(eq_expr(t, "s_[%d]" % q, "src[%d]" % q) for q in range(N)))
+    b.append("f.solve(); let v2 = f.out();")
+    b.append("kani::cover!(true, \"VP:reached\");")
+    b.append("forget(v); forget(v2); forget(f); forget(out); forget(sc);")
+    tag = ("c" + mask_txt(m1)) if m1 is not None else "ix"
+    h = H("c03_l1_%s_%s_%s%dx%d_%s" % (fam.lower(), t.lower(), sform.lower(), R, C, tag), "    " + "\n    ".join(b), WHERE, domain="accept",
+          key="L1/Access%s/%s/%s/%s" % (fam, t, sform, tag),
+          desc="Access%s<%s> on a symbolic %dx%d %s, output allocated as the dispatch arm allocates it, %s: documented result shape, every element is the "
+               "one the 1-based column-major model selects (repeated indices allowed), source unchanged" % (fam, t, R, C, sform, "concrete column mask " + mask_txt(m1) if m1 is not None else "symbolic index vectors of length 2"),
+          functions=["Access%s::solve/out (src/interpreter/src/stdlib/access/matrix.rs: struct macro + kernel macro)" % fam],
+          bounds="source %dx%d, all element values; index vectors of length %d, all in-range values" % (R, C, K), unwind=max(N, K) + 2, tier=tier, group="L1-ix")
+    h.slice = slice_for(t)
+    return h
+
+
 def plan(tier, seed):
     hs = []
     t = "f64"
@@ -231,6 +435,35 @@ def plan(tier, seed):
                         (("V", "K"), (2, (True, False, True))), (("K", "V"), ((True, True), 2)), (("K", "V"), ((False, True), 2))):
         kq += 1
         hs.append(gen(t, "MD", (2, 3), forms, lens, "accept", "quick" if kq % 6 == seed % 6 else "thorough"))
+    # L1 mask reads (concrete masks, symbolic elements)
+    kq = 0
+    T_, F_ = True, False
+    for sform, shape in (("RD", (1, 3)), ("VD", (3, 1)), ("MD", (2, 2))):
+        N = shape[0] * shape[1]
+        for bits in itertools.product((True, False), repeat=N):
+            if not any(bits):
+                continue
+            kq += 1
+            hs.append(gen_l1_mask(t, "1DVDb", sform, shape, bits, None, "quick" if kq % 5 == seed % 5 else "thorough"))
+    for m0 in ((T_, F_, T_), (F_, T_, T_), (T_, T_, T_), (F_, F_, T_), (T_, T_, F_)):
+        kq += 1
+        hs.append(gen_l1_mask(t, "2DVDbA", "MD", (3, 2), m0, None, "quick" if m0 in ((T_, F_, T_), (F_, T_, T_)) else "thorough"))
+        hs.append(gen_l1_mask(t, "2DVDbS", "MD", (3, 2), m0, None, "quick" if kq % 3 == seed % 3 else "thorough"))
+        hs.append(gen_l1_mask(t, "2DSVDb", "MD", (2, 3), None, m0, "quick" if kq % 3 == (seed + 1) % 3 else "thorough"))
+    for m0, m1 in (((T_, T_), (T_, F_, T_)), ((F_, T_), (F_, T_, T_)), ((T_, F_), (F_, F_, T_)), ((T_, T_), (F_, T_, F_)), ((T_, T_), (T_, T_, T_))):
+        kq += 1
+        hs.append(gen_l1_mask(t, "2DRRVBB", "MD", (2, 3), m0, m1, "quick" if kq % 2 == seed % 2 else "thorough"))
+        hs.append(gen_l1_mask(t, "2DRRVUB", "MD", (2, 3), None, m1, "quick" if kq % 2 != seed % 2 else "thorough"))
+    for m0 in ((T_, F_, T_), (F_, T_, F_), (T_, T_, T_)):
+        kq += 1
+        hs.append(gen_l1_mask(t, "2DRRVBU", "MD", (3, 2), m0, None, "quick" if kq % 2 == seed % 2 else "thorough"))
+    for sform, shape in (("RD", (1, 3)), ("VD", (3, 1)), ("MD", (2, 2))):
+        hs.append(gen_l1_ix(t, "1DVD", sform, shape, None, "quick" if sform == ["RD", "VD", "MD"][(seed + 1) % 3] else "thorough"))
+    for fam in ("2DVDA", "2DVDS", "2DSVD", "2DRRVUU", "2DARV"):
+        hs.append(gen_l1_ix(t, fam, "MD", (2, 3), None, "quick"))
+        hs.append(gen_l1_ix("u8", fam, "MD", (3, 2), None, "thorough"))
+    for m1 in ((T_, F_, T_), (F_, T_, F_), (T_, T_, T_), (F_, T_, T_)):
+        hs.append(gen_l1_ix(t, "2DARVB", "MD", (2, 3), m1, "quick" if m1 in ((T_, F_, T_), (F_, T_, F_)) else "thorough"))
     hs = [h for h in hs if h is not None]
     for h in hs:
         forms_ = h.key.split("/")[2]
@@ -238,6 +471,11 @@ def plan(tier, seed):
         if h.name == "c03_f64_md2x3_v2_v2_accept":
             h.tier = "off"
             h.off_reason = "x[[i..],[j..]] with two index vectors: out of 9 GB in the propositional reduction (measured 2026-09-24)"
+        if "K" in forms_ and not h.name.startswith("c03_l1_"):
+            h.tier = "off"
+            h.off_reason = ("dispatch-level mask read with a CONCRETE mask: still out of 9 GB - the mask bits reach the kernel through a pointer "
+                            "chain inside a nested enum payload (Value::MatrixBool(Matrix::DVector(rc))), which CBMC does not constant-fold, so the "
+                            "output is still resized to a symbolic length (measured 2026-09-24); the kernels are decided at L1 instead (c03_l1_*)")
         if "B" in forms_ and (h.domain == "accept" or two_d):
             h.tier = "off"
             h.off_reason = ("logical-mask read whose result length is the (symbolic) number of true bits: CBMC ran out of 9 GB in the "
